@@ -79,6 +79,12 @@ import (
 	"verif/harness/internal/core"
 )
 
+// unhealthy_latency of configurations that have one, and how long the answer `sl` takes.
+const (
+	latencyLimit = 150 * time.Millisecond
+	slowAnswer   = 250 * time.Millisecond
+)
+
 const longD = 100 // fail_duration ≥ longD ticks never elapses inside a case
 
 // enoughFailures: once this many generated cases have failed the oracle the run stops
@@ -315,6 +321,7 @@ type step struct {
 	s    int
 	x    int  // max_requests of the first upstream (0 = not set)
 	dyn  bool // Y step: the upstreams come from a dynamic source
+	lat  bool // passive unhealthy_latency configured (latencyLimit)
 	get  bool
 	rid  int
 	out  string
@@ -352,13 +359,13 @@ func parseKeys(s string, K int) ([]int, bool) {
 	return out, len(out) <= 8
 }
 
-var outcomes = map[string]bool{"ok": true, "e5": true, "c404": true, "c429": true, "c502": true, "c503": true,
+var outcomes = map[string]bool{"ok": true, "sl": true, "e5": true, "c404": true, "c429": true, "c502": true, "c503": true,
 	"rst": true, "hup": true, "pan": true, "her": true}
 
 // answerStatus: the status code of a complete answer (0 = the answer token is something else).
 func answerStatus(out string) int {
 	switch out {
-	case "ok", "hup", "pan", "her": // hup/pan/her: a 200 whose body breaks off / whose response handler panics / fails
+	case "ok", "sl", "hup", "pan", "her": // sl: a 200 that takes longer than unhealthy_latency; hup/pan/her: a 200 whose body breaks off / whose response handler panics / fails
 		return 200
 	case "e5":
 		return 500
@@ -380,10 +387,19 @@ func parseStep(s string, K int) (st step, ok bool) {
 	st.op = f[0][0]
 	switch st.op {
 	case 'L', 'Y':
-		if len(f) != 8 && !(len(f) == 9 && st.op == 'L') {
+		if len(f) != 8 && !((len(f) == 9 || len(f) == 10) && st.op == 'L') {
 			return st, false
 		}
 		st.dyn = st.op == 'Y'
+		if len(f) == 10 {
+			// tenth field: unhealthy_latency configured (then the ninth may be 0)
+			x, okx := num(f[8])
+			l, okl := num(f[9])
+			if !okx || !okl || x > 100 || l != 1 {
+				return st, false
+			}
+			st.x, st.lat = x, true
+		}
 		if len(f) == 9 {
 			var okx bool
 			st.x, okx = num(f[8])
@@ -472,7 +488,13 @@ func parseSched(f []string) (K int, steps []step, ok bool) {
 		ticks += st.n
 		steps = append(steps, st)
 	}
-	return K, steps, ticks <= 99
+	lat := false
+	for _, st := range steps {
+		lat = lat || (st.lat && st.p)
+	}
+	// with unhealthy_latency no time may pass: how long a request stays parked would decide
+	// whether its round trip counts as slow
+	return K, steps, ticks <= 99 && !(lat && ticks > 0)
 }
 
 // splitFields splits a protocol line the way the Lean driver does (single spaces, empty fields dropped).
@@ -525,6 +547,8 @@ type reqSt struct {
 	at     int // backend key while parked
 	cmd    chan string
 	done   bool
+	since  time.Time // when it was parked
+	aged   bool      // it was already parked while a slow answer was being waited for: its round trip is slow too
 }
 
 type reqEvent struct {
@@ -583,6 +607,7 @@ type kase struct {
 	failures       []core.Failure
 	tags           map[string]bool
 	done           []step    // steps executed so far
+	lastAged       bool      // the request moved by the last O step was aged
 	lastCounted    int       // failures counted during the last step
 	forgetTimedOut bool      // a due forgetter did not run within the settle wait
 	cf             bool      // configurations are delivered as Caddyfile where possible
@@ -672,6 +697,9 @@ func (b *backend) ServeHTTP(w http.ResponseWriter, r *http.Request) {
 	switch c {
 	case "ok":
 		w.Write([]byte("ok"))
+	case "sl":
+		time.Sleep(slowAnswer)
+		w.Write([]byte("ok"))
 	case "e5", "c404", "c429", "c502", "c503":
 		w.WriteHeader(answerStatus(c))
 		w.Write([]byte("no"))
@@ -747,6 +775,9 @@ func (k *kase) handlerJSON(st step, bad bool) []byte {
 		if st.s > 0 {
 			pa["unhealthy_status"] = statusTable[st.s]
 		}
+		if st.lat {
+			pa["unhealthy_latency"] = int64(latencyLimit)
+		}
 		m["health_checks"] = map[string]any{"passive": pa}
 	}
 	if k.cf {
@@ -770,7 +801,7 @@ func (k *kase) handlerJSON(st step, bad bool) []byte {
 // as a JSON object; ok=false if the step cannot be written as Caddyfile (an upstream's own
 // max_requests; passive checks present but with no option set).
 func (k *kase) viaCaddyfile(st step) (map[string]any, bool) {
-	if st.dyn || st.x > 0 || (st.p && st.d == 0 && st.m == 0 && st.q == 0 && st.s == 0) {
+	if st.dyn || st.x > 0 || (st.p && st.d == 0 && st.m == 0 && st.q == 0 && st.s == 0 && !st.lat) {
 		return nil, false
 	}
 	var b strings.Builder
@@ -802,6 +833,9 @@ func (k *kase) viaCaddyfile(st step) (map[string]any, bool) {
 				}
 			}
 			b.WriteString("\n")
+		}
+		if st.lat {
+			fmt.Fprintf(&b, "\tunhealthy_latency %s\n", latencyLimit.String())
 		}
 	}
 	b.WriteString("\ttransport http {\n\t\tkeepalive off\n\t}\n}\n")
@@ -890,6 +924,8 @@ func (k *kase) waitReq(r *reqSt) string {
 			}
 			if e.arrived {
 				r.parked, r.at, r.cmd = true, e.key, e.cmd
+				r.since = time.Now()
+				r.aged = false
 				return "P" + strconv.Itoa(e.key)
 			}
 			r.parked, r.done = false, true
@@ -1194,8 +1230,23 @@ func (p *prop) runSched(K int, src stepSource, U time.Duration, cf bool) (impl s
 				r.cancel()
 				k.tag("client-abort")
 			} else {
+				k.lastAged = r.aged
+				if st.out == "sl" {
+					for _, o := range k.reqs {
+						if o != r && o.parked {
+							o.aged = true
+						}
+					}
+				}
+				if r.cfg.st.lat && r.cfg.st.p && st.out != "sl" && st.out != "rst" && !r.aged && time.Since(r.since) > latencyLimit/2 {
+					// the machine was so slow that a quick answer may look slow to unhealthy_latency
+					k.raced = true
+				}
 				r.cmd <- st.out
 				k.tag("out-" + st.out)
+				if st.out == "sl" && r.cfg.st.lat && r.cfg.st.p {
+					k.tag("latency-strike")
+				}
 			}
 			if r.cfg.canceled {
 				k.tag("moved-on-unloaded-config")
